@@ -53,6 +53,10 @@ def gen_universe(rng: random.Random, *, n_lo: int = 14, n_hi: int = 48, nulls: b
                 continue
             kind = {"A": "text_object", "B": "category", "S": "text_default" if rng.random() < text_default_p else "text_object", "N": "category"}[name]
             spec: dict[str, Any] = {"kind": kind, "levels": levels, "null_rate": rng.choice([0.0, 0.0, 0.08]) if nulls else 0.0}
+            if name == "N":
+                # numeric categories + a null make numpy read the column as float64, so hashed() stringifies 10 as '10.0' in frames
+                # that contain a null and as '10' in frames that do not (hashed()/null handling is C06's listed hole): not generated
+                spec["null_rate"] = 0.0
             if kind == "category":
                 order = levels[:]
                 if rng.random() < 0.5:
@@ -117,6 +121,29 @@ def universe_frame(u: dict) -> Any:
     return df
 
 
+def _simframe_class() -> Any:
+    import pandas as pd
+
+    class SimFrame(pd.DataFrame):
+        @property
+        def _constructor(self):
+            return SimFrame
+
+    return SimFrame
+
+
+class _LazySimFrame:
+    cls: Any = None
+
+    def __call__(self, df: Any) -> Any:
+        if self.cls is None:
+            self.cls = _simframe_class()
+        return self.cls(df)
+
+
+SimFrame = _LazySimFrame()
+
+
 def take(u: dict, ids: list[int], *, container: str = "pandas", index: str = "rid", mutate: Optional[dict] = None, recat: Optional[int] = None,
          keep_cols: Optional[list] = None) -> Any:
     """Build a data container holding universe rows ``ids`` (any subset / duplication / order).
@@ -144,6 +171,10 @@ def take(u: dict, ids: list[int], *, container: str = "pandas", index: str = "ri
         df.index = [f"r{i}" for i in ids]
     if container == "pandas":
         return df
+    if container == "recarray":
+        return df.to_records(index=False)
+    if container == "pandas_sub":
+        return SimFrame(df)  # a DataFrame subclass is not a registered input type: it is routed through the narwhals materializer
     if container == "dict":
         out: dict[str, Any] = {}
         for name in df.columns:
